@@ -163,6 +163,18 @@ def _work(job: t.Tuple[t.Any, ...]) -> evid.Local:
             for _ in range(depth):
                 inner = "(&" + inner * 1 + "".join(f"(sn={i})" for i in range(40)) + ")"
             _emit(loc, inner)
+    elif fam == "large":
+        for v in ["a" * 300, "\\2a" * 100, "\u00e9" * 120 + "\\C3\\a9", " " * 64, "=" * 33 + ":" * 33]:
+            for tpl in ("(cn={v})", "(cn~={v})", "(cn={v}*{v}*{v})", "(cn:dn:2.4.6:={v})", "(&(cn={v})(!(o=*{v})))"):
+                _emit(loc, tpl.format(v=v))
+        inner = "(cn=a)"
+        for i in range(40):
+            inner = ["(!" + inner + ")", "(&" + inner + "(o=b))", "(|(sn=c)" + inner + ")"][i % 3]
+            if i in (9, 10, 11, 25, 39):
+                _emit(loc, inner)
+                _emit(loc, " " + inner.replace("(&", "( & ").replace("(!", "(! ") + " ")
+        _emit(loc, "(" + ";".join(["cn"] + ["x-%d" % i for i in range(40)]) + "=v)")
+        _emit(loc, "(1.2." + ".".join(str(i) for i in range(60)) + ";binary>=v)")
     elif fam == "mb":
         # raw multi-byte UTF-8 earlier in the text, then items whose parts are located by offset
         pre = ["(givenName=J\u00fcrgen)", "(cn=\u00e9\u00e9\u00e9\u00e9)", "(o=\u2603*\U0001F600*)", "(cn~=\u4e2d\u6587)", "(a=\u00e9)(b=\u00e9\u00e9)"]
@@ -206,7 +218,7 @@ def run(ctx: evid.Ctx) -> None:
     jobs += [("d2", i) for i in range(8)]
     jobs += [("d3", i) for i in range(8)]
     jobs += [("hex", a, b) for a, b in par.split(22, 11)]
-    jobs += [("wide", 0), ("mb", 0)]
+    jobs += [("wide", 0), ("mb", 0), ("large", 0)]
     # the RFC's own examples
     for ex in filt.RFC4515_EXAMPLES:
         r = check_one(ex)
